@@ -343,6 +343,9 @@ func (eapAkaPrime *EapAkaPrime) Unmarshal(rawData []byte) error {
 				}
 			}
 		case AT_KDF:
+			if attr.length != 1 {
+				return errors.Errorf("EAP-AKA' Unmarshal(): %s attribute length must be 1", attr.attrType)
+			}
 			valLen := 4*attr.length - EapAkaAttrTypeLen - EapAkaAttrLengthLen
 			attr.value = make([]byte, valLen)
 			n, err = io.ReadFull(bufReader, attr.value)
